@@ -5,8 +5,11 @@
 (* after every step, with every property invariant true in every state.     *)
 EXTENDS ControlConn, Json, IOUtils, TLCExt
 
-Traces == ndJsonDeserialize(IOEnv.TRACE_FILE)
-Mode   == IF "VMODE" \in DOMAIN IOEnv THEN IOEnv.VMODE ELSE "full"
+\* the file is read once (a plain definition would be re-evaluated, i.e. the file re-parsed, at every use)
+ASSUME TLCSet(3, ndJsonDeserialize(IOEnv.TRACE_FILE))
+Traces == TLCGet(3)
+ASSUME TLCSet(4, IF "VMODE" \in DOMAIN IOEnv THEN IOEnv.VMODE ELSE "full")
+Mode   == TLCGet(4)
 
 VARIABLES tid, l
 tvars == <<vars, tid, l>>
